@@ -50,7 +50,12 @@ class Verifier(Engine):
         if m is None:
             raise Unsupported(f"statement {type(s).__name__}", s)
         self.pending_raises = []
-        return m(s, st)
+        outs = m(s, st)
+        if self.cur_contract is not None and self.cur_contract.ghost_effects and not isinstance(s, (ast.If, ast.For, ast.While, ast.With, ast.Try)):
+            for o in outs:
+                if o.kind == "normal":
+                    self.apply_ghost_effects(s, o.st)
+        return outs
 
     def flush_raises(self, st: State) -> list[Outcome]:
         """Turn the safety checks / callee exceptions collected while evaluating
@@ -514,10 +519,94 @@ class Verifier(Engine):
         return self.as_seq(v, st), "plain"
 
     def s_While(self, s: ast.While, st: State) -> list[Outcome]:
-        raise Unsupported("while loop", s)
+        """while cond: body   cut at the sidecar's invariants (entry / step / exit).  Partial correctness only: termination
+        is not proved (a `decreases` clause is not checked) - stated in the evidence."""
+        if s.orelse:
+            raise Unsupported("while/else", s)
+        spec = self.loop_spec(s)
+        ordinal = self.loop_ordinals[id(s)]
+        tag = f"loop{ordinal}"
+        self.trusted_used.add(f"termination of the while loop #{ordinal} of {self.cur_func} is not proved")
+        outer_entry = st.loop_entry
+        st.loop_entry = st.snapshot()
+        for h in spec.hints_entry:
+            self.hint(st, h, f"{tag}.hint_entry")
+        for lab, txt in spec.invariants.items():
+            self.emit(st, self.clause(txt, st), f"{tag}.inv.{lab}.entry", text=txt)
+        mod = self.assigned_names(s.body)
+        heapmod = self.written_heap(s.body)
+        it = st.fork()
+        self.havoc(it, mod, heapmod)
+        for lab, txt in spec.invariants.items():
+            it.pc.append(self.clause(txt, it))
+        self.pending_raises = []
+        c = self.truthy(self.expr(s.test, it))
+        outs = self.flush_raises(it)
+        ex = it.fork()
+        ex.pc.append(z3.Not(c))
+        ex.path = st.path + [tag + "X"]
+        for h in spec.hints_after:
+            self.hint(ex, h, f"{tag}.hint_after")
+        bd = it.fork()
+        bd.pc.append(c)
+        bd.path = st.path + [tag + "B"]
+        for h in spec.hints_begin:
+            self.hint(bd, h, f"{tag}.hint_begin")
+        after: list[Outcome] = [Outcome("normal", ex)]
+        for o in self.block(s.body, bd):
+            if o.kind in ("normal", "continue"):
+                e2 = o.st
+                for h in spec.hints_end:
+                    self.hint(e2, h, f"{tag}.hint")
+                for lab, txt in spec.invariants.items():
+                    self.emit(e2, self.clause(txt, e2), f"{tag}.inv.{lab}.step", text=txt)
+            elif o.kind == "break":
+                o.st.path = o.st.path + [tag + "brk"]
+                for h in spec.hints_after:
+                    self.hint(o.st, h, f"{tag}.hint_after")
+                after.append(Outcome("normal", o.st))
+            else:
+                after.append(o)
+        for o in after:
+            o.st.loop_entry = outer_entry
+        st.loop_entry = outer_entry
+        return outs + after
 
     def s_With(self, s: ast.With, st: State) -> list[Outcome]:
-        raise Unsupported("with statement", s)
+        """`with <external object> as name:`  - the context manager of an external library handle (a DB session, ...): entering and
+        leaving it is trusted to have no effect on the verified state; the body is executed normally."""
+        for item in s.items:
+            if self.external_root(item.context_expr) is None and not (isinstance(item.context_expr, ast.Attribute) and
+                                                                      item.context_expr.attr in (self.cur_contract.externals if self.cur_contract else [])):
+                raise Unsupported("with statement over a non-external object", s)
+            if item.optional_vars is not None:
+                if not isinstance(item.optional_vars, ast.Name):
+                    raise Unsupported("with ... as <pattern>", s)
+                st.env[item.optional_vars.id] = self.fresh("ext", ANY)
+        self.trusted_used.add(f"{self.cur_func}: entering / leaving the context manager at line {s.lineno - self.func_line} (relative) has no effect on the verified state")
+        return self.block(s.body, st)
+
+    def apply_ghost_effects(self, s: ast.stmt, st: State) -> None:
+        c = self.cur_contract
+        if c is None or not c.ghost_effects:
+            return
+        text = ast.unparse(s)
+        for ge in c.ghost_effects:
+            if text.startswith(ge["after"]):
+                ge["_used"] = True
+                pre = st.snapshot()
+                for hk in ge.get("modifies", []):
+                    self.note_write(hk, s)
+                    rname, fname = hk.split(".")
+                    rec = self.tenv.records[rname]
+                    _, srt = self.pre.field(rec, fname)
+                    st.heap[hk] = self.pre.fresh(f"H.{hk}", srt)
+                post = st.fork()
+                post.old = pre
+                post.pc = st.pc
+                for lab, txt in ge.get("ensures", {}).items():
+                    self.assume(st, self.clause(txt, post))
+                self.trusted_used.add(f"{self.cur_func}: ghost effect assumed after `{ge['after']}`: {list(ge.get('ensures', {}).values())}")
 
     # ================================================================= functions
     def load_source(self, path: str, relpath: str) -> None:
@@ -665,6 +754,9 @@ class Verifier(Engine):
             for o in outcomes:
                 self.finish_path(c, o, rty)
         info["vcs"] = len(self.vcs) - n_before
+        for ge in c.ghost_effects:
+            if not ge.get("_used"):
+                raise ContractError(f"{c.name}: no statement starts with `{ge['after']}` (ghost effect cannot be bound)")
         self.cur_contract = None
         if c.pure:
             self.add_pure_axiom(c)
